@@ -438,6 +438,50 @@ func mctsGenPosition(r *rand.Rand, size int, kind string) *tak.Position {
 	return nil
 }
 
+// ---------- replay ----------
+
+// mctsStepsReplay re-runs one case from the input text of an ORACLE-FAIL line of this file (mctsCase.desc); called by
+// c04Replay for inputs that start with "mcts-steps".
+func mctsStepsReplay(c *ctx, input string) {
+	head, pos := input, ""
+	if i := strings.Index(input, " pos="); i >= 0 {
+		head, pos = input[:i], input[i+5:]
+	}
+	kv := map[string]string{}
+	for _, f := range strings.Fields(head) {
+		if i := strings.Index(f, "="); i > 0 {
+			kv[f[:i]] = f[i+1:]
+		}
+	}
+	atoi := func(s string) int64 { v, _ := strconv.ParseInt(s, 10, 64); return v }
+	p, err := decodeEnc(pos)
+	if err != nil {
+		fmt.Fprintln(os.Stderr, "bad position in replay:", err)
+		os.Exit(2)
+	}
+	cf, _ := strconv.ParseFloat(kv["C"], 64)
+	k := mctsCase{p: p, kind: kv["kind"], placeWin: kv["place_win"] == "1", corners: kv["corners"] == "1", c: cf,
+		maxRoll: int(atoi(kv["maxrollout"])), evalThr: atoi(kv["evalthreshold"]), want: int(atoi(kv["want"])),
+		seed: atoi(kv["seed"]), hi: atoi(kv["hi"]), lo: atoi(kv["lo"])}
+	prev := log.Writer()
+	log.SetOutput(mctsLogWriter{})
+	defer log.SetOutput(prev)
+	o := &mctsOut{stats: map[string]int64{}}
+	if pan, msg := safely(func() { k.run(o) }); pan {
+		o.fail("harness-panic", input, "the harness itself panicked: "+msg, "-")
+	}
+	failed := false
+	for _, l := range o.lines {
+		if strings.HasPrefix(l, "ORACLE-FAIL ") {
+			failed = true
+			c.printf("%s\n", l)
+		}
+	}
+	if !failed {
+		c.printf("REPLAY-OK %s\n", input)
+	}
+}
+
 // ---------- the run ----------
 
 func runMctsSteps(c *ctx) {
